@@ -6,6 +6,32 @@ from props import engine_common as ec, engine_prove, hist_common as hc
 MODULES = ['IRModel.Props.C07']
 
 
+def group(protos, d, code, names):
+    """the first complete frame GROUP of a code: frames up to and including the first one that yields a code on a
+    history-free decoder (one frame for most protocols, several for the multi-frame ones)"""
+    fr = protos.frames(code)
+    inst = protos.fresh(d)
+    for k, f in enumerate(fr):
+        if hc.outcome(protos, inst, f, names, d.frequency)[0] == 'ok':
+            return fr[:k + 1]
+    return fr[:1]
+
+
+def feed(protos, inst, frames, names, freq, drain=None, drain_after=None):
+    """feed a frame group; the group's outcome is the first code, else the last error.  `drain` runs the queued release
+    callbacks after every frame, `drain_after=(k, f)` runs them once after the k-th frame (a delivery point INSIDE the group)"""
+    out = None
+    for k, f in enumerate(frames):
+        out = hc.outcome(protos, inst, f, names, freq)
+        if drain is not None:
+            drain()
+        if drain_after is not None and drain_after[0] == k + 1:
+            drain_after[1]()
+        if out[0] == 'ok':
+            break
+    return out
+
+
 def search(ctx, focus=(), deep=1):
     import realenv, protos, pyIRDecoder
     env = realenv
@@ -23,6 +49,7 @@ def search(ctx, focus=(), deep=1):
         names = list(pa)
         try:
             fa, fb = protos.frames(ca)[0], protos.frames(cb)[0]
+            ga, gb = group(protos, d, ca, names), group(protos, d, cb, names)
             rep = None
             cr = protos.encode(d, pa, 1)
             fr = protos.frames(cr)
@@ -30,14 +57,14 @@ def search(ctx, focus=(), deep=1):
                 rep = fr[1]
         except Exception:
             continue
-        fresh_b = hc.outcome(protos, protos.fresh(d), fb, names, d.frequency)
-        fresh_a = hc.outcome(protos, protos.fresh(d), fa, names, d.frequency)
+        fresh_b = feed(protos, protos.fresh(d), gb, names, d.frequency)
+        fresh_a = feed(protos, protos.fresh(d), ga, names, d.frequency)
         if fresh_b[0] != 'ok' and fresh_a[0] != 'ok':
             continue                       # protocol does not decode its own frames: C01's business
         garbage = [x * 3 for x in fa[:5]]
-        events = {'A': fa, 'B': fb, 'G': garbage}
+        events = {'A': ga, 'B': gb, 'G': [garbage]}
         if rep is not None:
-            events['R'] = rep
+            events['R'] = [rep]
         # 'C': key A's frame with one symbol substituted inside a NON-identifying field (checksum / complement /
         # constant), built with the real _build_packet
         try:
@@ -51,46 +78,51 @@ def search(ctx, focus=(), deep=1):
                         kw = dict(kwargs); kw[k] = c05.flip(kwargs[k], 0)
                         fc = list(d.__class__._build_packet(*args, **kw))
                         if fc != fa:
-                            events['C'] = fc
+                            events['C'] = [fc]
                             break
         except Exception:
             pass
-        fresh_c = hc.outcome(protos, protos.fresh(d), events['C'], names, d.frequency) if 'C' in events else None
+        fresh_c = feed(protos, protos.fresh(d), events['C'], names, d.frequency) if 'C' in events else None
         letters = sorted(events) + ['E']
         hists = [h for n in range(1, depth + 1) for h in itertools.product(letters, repeat=n)]
         if not ctx.thorough and d.name not in focus:
             hists = r.sample(hists, min(len(hists), 14 * deep))
         extra = [tuple(f['witness']['input']['history']) for f in known if f.get('site') == d.name and isinstance(f.get('witness', {}).get('input'), dict) and 'history' in f['witness']['input']]
         for h in extra + hists:
-            for delivery in ('immediate', 'before-probe', 'after-probe'):
+            for delivery in ('immediate', 'before-probe', 'after-probe', 'mid-probe'):
                 for probe, want in [('B', fresh_b), ('A', fresh_a)] + ([('C', fresh_c)] if fresh_c is not None else []):
-                    inst = protos.fresh(d)
-                    del env.process_worker.queue[:]
-                    ok = True
-                    for ev in h:
-                        if ev == 'E':
-                            try:
-                                protos.encode(inst, pb, 1)
-                            except Exception:
-                                pass
-                        elif ev in events:
-                            hc.outcome(protos, inst, events[ev], names, d.frequency)
-                        if delivery == 'immediate':
+                    if delivery == 'mid-probe' and len(events[probe]) < 2:
+                        continue           # only a multi-frame group has a point inside it
+                    mids = range(1, len(events[probe])) if delivery == 'mid-probe' else [None]
+                    for mid in mids:
+                        inst = protos.fresh(d)
+                        del env.process_worker.queue[:]
+                        ok = True
+                        for ev in h:
+                            if ev == 'E':
+                                try:
+                                    protos.encode(inst, pb, 1)
+                                except Exception:
+                                    pass
+                            elif ev in events:
+                                feed(protos, inst, events[ev], names, d.frequency, drain=env.drain_process if delivery == 'immediate' else None)
+                            if delivery == 'immediate':
+                                env.drain_process()
+                        if delivery == 'before-probe':
                             env.drain_process()
-                    if delivery == 'before-probe':
+                        got = feed(protos, inst, events[probe], names, d.frequency, drain=env.drain_process if delivery == 'immediate' else None,
+                                   drain_after=(mid, env.drain_process) if mid is not None else None)
                         env.drain_process()
-                    got = hc.outcome(protos, inst, events[probe], names, d.frequency)
-                    env.drain_process()
-                    ctx.count((d.name, h, delivery, probe))
-                    if got[0] == 'err' and got[1].startswith('LEAK'):
-                        continue           # C08's
-                    same = (got == want) or (got[0] == 'err' and want[0] == 'err' and got[1].startswith('IR:') and want[1].startswith('IR:') and (got[1] == want[1]))
-                    # a repeat of the very same key may legitimately be answered with a repeat marker error
-                    if not same and h and h[-1] == probe and got[0] == 'err' and 'Repeat' in got[1]:
-                        same = True
-                    if not same:
-                        ctx.violation(d.name, 'history-dependent/' + ('corrupt' if probe == 'C' else 'full'), '%s history %s (callbacks %s) then full frame %s: %s, fresh decoder: %s' % (d.name, ''.join(h), delivery, probe, got, want),
-                                      dict(protocol=d.name, delivery=delivery, last=h[-1] if h else None, probe=probe), input=dict(history=list(h), delivery=delivery, probe=probe, A=pa, B=pb))
+                        ctx.count((d.name, h, delivery, probe, mid))
+                        if got[0] == 'err' and got[1].startswith('LEAK'):
+                            continue           # C08's
+                        same = (got == want) or (got[0] == 'err' and want[0] == 'err' and got[1].startswith('IR:') and want[1].startswith('IR:') and (got[1] == want[1]))
+                        # a repeat of the very same key may legitimately be answered with a repeat marker error
+                        if not same and h and h[-1] == probe and got[0] == 'err' and 'Repeat' in got[1]:
+                            same = True
+                        if not same:
+                            ctx.violation(d.name, 'history-dependent/' + ('corrupt' if probe == 'C' else 'full'), '%s history %s (callbacks %s) then full frame %s: %s, fresh decoder: %s' % (d.name, ''.join(h), delivery, probe, got, want),
+                                          dict(protocol=d.name, delivery=delivery, last=h[-1] if h else None, probe=probe), input=dict(history=list(h), delivery=delivery, probe=probe, A=pa, B=pb))
     ctx.sample({'protocol': 'NEC', 'history': 'A R G', 'delivery': 'before-probe', 'probe': 'B'})
 
 
